@@ -247,4 +247,46 @@ def cases(tier, seed=0):
                 return lhs, rhs
             out.append(scenario_case(f"prior-batch/{kind}/Dx{Dx}Dy{Dy}/Rx{Rx}", declare, run, idxs,
                                      dict(op="joint/marginal/conditional transformation, conditional entropy; batch of priors", conditional=kind, Dx=Dx, Dy=Dy, R_cond=1, R_x=Rx), timeout=900))
+    # ------------------------------------------------------------------ approximate conditionals: batch of priors
+    from .c14 import declare_feature, make_feature
+    from .c16 import make_het
+    for model in ("lrbf", "lsem", "exp", "cosh"):
+        Rx = 2
+        idxs = idx_set(Rx, "quick")
+
+        def declare(b, model=model):
+            if model in ("lrbf", "lsem"):
+                declare_feature(b, model, 1, 1, 1)
+            else:
+                b.free("M", (1, 1, 1)); b.free("bv", (1, 1)); b.free("A", (1, 1, 1)); b.free("W", (1, 2))
+            b.spd("Sx", Rx, 1); b.free("mx", (Rx, 1))
+
+        def run(A, idx, model=model):
+            factor, measure, pdf, conditional = gt()
+            c = make_feature(model, A) if model in ("lrbf", "lsem") else make_het(model, A)
+            px = pdf.GaussianPDF(Sigma=A["Sx"], mu=A["mx"]); pxs = px.slice(J(idx))
+            m, S = c.get_expected_moments(px); ms, Ss = c.get_expected_moments(pxs)
+            return ({"mu_y": m[J(idx)], "Sigma_y": S[J(idx)], "Eyx": c.get_expected_cross_terms(px)[J(idx)]},
+                    {"mu_y": ms, "Sigma_y": Ss, "Eyx": c.get_expected_cross_terms(pxs)})
+        out.append(scenario_case(f"approx-prior-batch/{model}/Rx{Rx}", declare, run, idxs,
+                                 dict(op="matched moments of an approximate conditional; batch of priors", model=model, R_x=Rx), timeout=900))
+
+    # ------------------------------------------------------------------ truncated measures (batch of measures and limits)
+    def declare(b):
+        b.pos("s", (2,)); b.free("nu", (2, 1)); b.free("lb", (2,)); b.free("a", (2, 1)); b.pos("gap", (2, 1))
+        b.derived("bu", (2, 1), lambda I, ops: I["a"] + I["gap"])
+        b.phi_slots(5)
+
+    def run(A, idx):
+        from ..phi import patched_norm
+        from gaussian_toolbox.experimental import truncated_measure as tm
+        factor, measure, pdf, conditional = gt()
+        with patched_norm():
+            lam = (1.0 / A["s"] ** 2)[:, None, None]
+            u = measure.GaussianMeasure(Lambda=lam, nu=A["nu"], ln_beta=A["lb"])
+            t = tm.TruncatedGaussianMeasure(measure=u, lower_limit=A["a"], upper_limit=A["bu"])
+            ts = tm.TruncatedGaussianMeasure(measure=u.slice(J(idx)), lower_limit=A["a"][J(idx)], upper_limit=A["bu"][J(idx)])
+            return ({"F0": t.integrate("1")[J(idx)], "F1": t.integrate("x")[J(idx)], "F2": t.integrate("x**2")[J(idx)], "F3": t.integrate("x**k", k=3)[J(idx)]},
+                    {"F0": ts.integrate("1"), "F1": ts.integrate("x"), "F2": ts.integrate("x**2"), "F3": ts.integrate("x**k", k=3)})
+    out.append(scenario_case("truncated/R2", declare, run, idx_set(2, "quick"), dict(op="truncated integrals; batch of measures with individual limits", R=2), timeout=900))
     return out
